@@ -354,7 +354,12 @@ func (r *Runner) stmtSync(ctx context.Context, st *syntax.Stmt) {
 		}
 	}
 	if r.exit.ok() && st.Cmd != nil {
+		// Everything inside a command preceded by "!" ignores "errexit",
+		// such as the body of a function or a brace group.
+		oldInNegated := r.inNegated
+		r.inNegated = r.inNegated || st.Negated
 		r.cmd(ctx, st.Cmd)
+		r.inNegated = oldInNegated
 	}
 	if st.Negated && !r.exit.exiting && !r.exit.returning {
 		// "!" inverts the status of a command that completed; it must not
@@ -372,7 +377,7 @@ func (r *Runner) stmtSync(ctx context.Context, st *syntax.Stmt) {
 		//   conditions (if <cond>, while <cond>, etc)
 		//   part of && or || lists; excluded via "else" above
 		//   preceded by !; excluded via "else" above
-		if r.opts[optErrExit] {
+		if r.opts[optErrExit] && !r.inNegated {
 			r.exit.exiting = true
 		}
 	}
